@@ -234,3 +234,141 @@ def correspond_static(ctx, pid):
     if pf_kept:
         c, ch = pf_kept[len(pf_kept) // 3]
         ctx.sample({'pf': pf_line(c), 'impl_chunks': ch})
+
+
+# ------------------------------------------------------------------------------------------------ C12 / C13 (all chunking modes)
+
+PF_IMPORTS = ('From DV Require Import Base.MachInt Base.Corr Model.ChunkModel Gen.GenChunk Model.ParForModel Model.DynModel '
+              'Model.StripeModel Model.C12Check Model.C13Check.')
+MAX_RECORDED = 4000      # more recorded invocations than any legitimate plan of the generators below -> treated like OVERRUN
+
+
+def machine_l3(exe):
+    rc, txt = dv.sh([exe], inp='l3\n', timeout=60)
+    m = re.search(r'l3 (\d+)', txt)
+    return int(m.group(1)) if m else 0
+
+
+def gen_pf_cases(ctx, n, modes=('s', 'a', 'c'), waits=(0, 1), pools=(0, 1, 2, 3, 4, 5, 6, 7), big_pool_every=0, gmin=1):
+    """parallel_for cases over all 8 index kinds x ranges at the type limits x pool sizes x maxThreads x minItemsPerChunk x
+    granularity 1..64 (start mod g swept) x chunking modes x explicit chunk sizes, biased to the case splits of the proofs.
+    Domain kept: size <= kmax for signed kinds (ChunkedRange documents sizes that fit the signed size_type; the narrow signed
+    kinds beyond that are generated separately by gen_pf_fullrange_cases)."""
+    r = ctx.rng
+    cases = []
+    while len(cases) < n:
+        kn = r.choice(range(8))
+        w, sg = KINDS[kn]
+        lo, hi = kmin(kn), kmax(kn)
+        N = r.choice(list(pools))
+        if big_pool_every and len(cases) % big_pool_every == big_pool_every - 1:
+            N = 20
+        mode = r.choice(list(modes))
+        g = r.choice([1, 1, 2, 3, 4, 5, 7, 8, 8, 16, 17, 32, 63, 64, r.randint(1, 64)])
+        g = max(g, gmin)
+        maxsz = hi if sg else hi - lo
+        maxsz = min(maxsz, (1 << 62))
+        sm = r.random()
+        if sm < 0.25:
+            size = r.randint(0, 40)
+        elif sm < 0.7:
+            size = r.randint(0, 3000)
+        elif sm < 0.85:
+            size = r.choice([N, N + 1, N + 2, g * (N + 1), g * (N + 1) + 1, g * N, max(0, g * (N + 1) - 1), g - 1, g, g + 1, 2 * g,
+                             64 * (N + 1), 64 * (N + 1) + 1, 16 * (N + 1) - 1])
+        else:
+            size = r.randint(0, 1 << r.randint(1, 62))
+        size = max(0, min(size, maxsz))
+        chunk = 0
+        if mode == 'c':
+            chunk = r.choice([1, 2, 3, 5, 8, 17, 100, max(1, size // 2), max(1, size), size + 1, max(1, size // 7)])
+            chunk = max(chunk, (size + 2999) // 3000, 1)       # keep the number of chunks recordable
+            chunk = min(chunk, hi)                             # chunk == kStatic is simply the static mode
+        pos = r.random()
+        if pos < 0.25:
+            s = lo
+        elif pos < 0.55:
+            s = hi - size
+        elif pos < 0.65:
+            s = max(lo, min(hi - size, -(size // 2) if lo < 0 else 0))
+        else:
+            s = r.randint(lo, hi - size)
+        if g > 1 and r.random() < 0.6:                         # sweep start mod g
+            want = r.randint(0, g - 1)
+            s2 = s - ((s - want) % g)
+            if s2 < lo:
+                s2 += g
+            if lo <= s2 and s2 + size <= hi:
+                s = s2
+        e = s + size
+        if r.random() < 0.04 and size > 0:                     # empty / reversed ranges
+            s, e = e, s
+        maxT = r.choice([1 << 31, (1 << 31) - 1, 0, 1, 2, 3, 4, N, N + 1, N + 2, 1000, (1 << 32) - 1])
+        minItems = r.choice([1, 1, 1, 0, 2, 5, 16, 100, max(1, size // 3), max(1, size // 2), max(1, size // (N + 1))])
+        minItems = min(minItems, (1 << 32) - 1)
+        wait = r.choice(list(waits))
+        cases.append({'kn': kn, 's': s, 'e': e, 'mode': mode, 'chunk': chunk, 'N': N, 'maxT': maxT, 'minItems': minItems,
+                      'g': g, 'wait': wait, 'rdv': 0, 'reuse': 0})
+    return cases
+
+
+def gen_pf_fullrange_cases(ctx, n):
+    """narrow signed kinds with sizes beyond kmax (int8 / int16 ranges spanning more than half of the type)"""
+    r = ctx.rng
+    cases = []
+    while len(cases) < n:
+        kn = r.choice([0, 2])
+        lo, hi = kmin(kn), kmax(kn)
+        size = r.randint(hi + 1, hi - lo)
+        if kn == 2 and r.random() < 0.5:
+            size = r.choice([hi - lo, hi - lo - 1, hi + 1, hi + 2])
+        s = r.choice([lo, hi - size, r.randint(lo, hi - size)])
+        N = r.choice([1, 2, 3, 5])
+        mode = r.choice(['s', 'a', 'a', 'c'])
+        chunk = max(1, min(hi - 1, r.choice([size // 100 + 1, size // 3, 100]))) if mode == 'c' else 0
+        minItems = r.choice([1, 1, size // 3, size // 2, size // (N + 1), 100])
+        cases.append({'kn': kn, 's': s, 'e': s + size, 'mode': mode, 'chunk': chunk, 'N': N, 'maxT': r.choice([1 << 31, 2, 3]),
+                      'minItems': max(1, minItems), 'g': r.choice([1, 1, 2, 8]), 'wait': r.choice([0, 1]), 'rdv': 0, 'reuse': 0})
+    return cases
+
+
+def run_pf_cases(exe, cases):
+    """-> list of (overrun: bool, chunks [(a,b)] or None when the harness failed, raw line)"""
+    outs = run_harness(exe, [pf_line(c) for c in cases])
+    res = []
+    for c, o in zip(cases, outs):
+        if o == 'OVERRUN':
+            res.append((True, [], o))
+            continue
+        p = parse_pf(o)
+        if p is None:
+            res.append((False, None, o))
+            continue
+        ch = [(a, b) for a, b, _ in p['chunks']]
+        if len(ch) > MAX_RECORDED:
+            res.append((True, [], 'pf %d ... (more than %d invocations)' % (len(ch), MAX_RECORDED)))
+        else:
+            res.append((False, ch, o))
+    return res
+
+
+def coq_case(c, l3, overrun, ch):
+    return '(%s, %d, %s, %s)' % (coq_cfg(c), l3, 'true' if overrun else 'false', coq_pairs(ch) if ch else '(@nil (Z * Z))')
+
+
+def judge_pf(ctx, name, judge, cases, results, l3, per_file=700):
+    """evaluate `judge` (judge_c12 / judge_c13) inside Coq on (config, what the implementation did).  -> verdict list or None"""
+    verdicts = []
+    idx = [i for i, (ov, ch, raw) in enumerate(results) if ch is not None]
+    k = 0
+    for part in [idx[i:i + per_file] for i in range(0, len(idx), per_file)] or [[]]:
+        terms = [coq_case(cases[i], l3, results[i][0], results[i][1]) for i in part]
+        res = coq_judge(ctx, '%s_%d' % (name, k), PF_IMPORTS, [(judge, terms)])
+        k += 1
+        if res is None:
+            return None
+        verdicts += res[0]
+    out = [None] * len(cases)
+    for i, v in zip(idx, verdicts):
+        out[i] = v
+    return out
